@@ -5,10 +5,8 @@ From V.Harness Require Import Run.
 Import ListNotations.
 Open Scope Z_scope.
 
-(* a text is reported as [number of code points; the code points packed in base 2^21, first one most significant]
-   (injective for code points < 2^21; keeps the generated case files small) *)
-Definition pack (l : list Z) : Z := fold_left (fun acc c => Z.shiftl acc 21 + c) l 0.
-Definition packl (l : list Z) : list Z := [zlen l; pack l].
+(* a text is reported as  number of code points :: code points *)
+Definition packl (l : list Z) : list Z := zlen l :: l.
 
 (* Format("{:<spec>}", Signal(Shape(w, sg))): [0] rejected (ValueError) | 1 :: the dict of _parse_format_spec *)
 Definition k_spec (s : list Z) (w : Z) (sg : bool) : list Z :=
@@ -17,7 +15,7 @@ Definition k_spec (s : list Z) (w : Z) (sg : bool) : list Z :=
   | None => [0]
   end.
 
-(* format(v, spec) for each v: [0] rejected | 1 :: for each value (packed text) or [-1] when Python raises *)
+(* format(v, spec) for each v: [0] rejected | 1 :: for each value (length :: text) or [-1] when Python raises *)
 Definition k_fmt (s : list Z) (w : Z) (sg : bool) (vs : list Z) : list Z :=
   match parse_spec s (Sh w sg) with
   | Some sp =>
@@ -28,11 +26,11 @@ Definition k_fmt (s : list Z) (w : Z) (sg : bool) (vs : list Z) : list Z :=
   | None => [0]
   end.
 
-(* a whole simulation: packed stdout ++ [code; step index] ++ packed exception text;  [-2] = ValueError at construction *)
+(* a whole simulation: [code; step index] ++ stdout (length :: text) ++ exception text (length :: text);  [-2] = ValueError at construction *)
 Definition k_sim (sigs : list shape) (pos : bool) (p : prog) (steps : list step) : list Z :=
   if prog_ok sigs p then
     match run_steps sigs pos p steps (init_env sigs) false 0 [] with
-    | (Cont out, idx) => packl out ++ [0; idx]
-    | (Stop out c msg, idx) => packl out ++ [c; idx] ++ packl msg
+    | (Cont out, idx) => [0; idx] ++ packl out
+    | (Stop out c msg, idx) => [c; idx] ++ packl out ++ packl msg
     end
   else [-2].
